@@ -1365,7 +1365,7 @@ func selectTaprootPartialSigWithNonce(
 func createClosingSigMessage(env *Environment, wireSig lnwire.Sig,
 	localSig input.Signature,
 	localScript, remoteScript lnwire.DeliveryAddress, fee btcutil.Amount,
-	lockTime uint32, noClosee bool) (*lnwire.ClosingSig, error) {
+	lockTime uint32, noClosee, noCloser bool) (*lnwire.ClosingSig, error) {
 
 	var (
 		closingSigs        lnwire.ClosingSigs
@@ -1388,11 +1388,16 @@ func createClosingSigMessage(env *Environment, wireSig lnwire.Sig,
 		wireSigWithNonce := musigSig.ToWireSig()
 		partialSig := wireSigWithNonce.PartialSig
 
-		if noClosee {
+		switch {
+		case noClosee:
 			taprootPartialSigs.CloserNoClosee = tlv.SomeRecordT(
 				tlv.NewRecordT[tlv.TlvType5](partialSig),
 			)
-		} else {
+		case noCloser:
+			taprootPartialSigs.NoCloserClosee = tlv.SomeRecordT(
+				tlv.NewRecordT[tlv.TlvType6](partialSig),
+			)
+		default:
 			taprootPartialSigs.CloserAndClosee = tlv.SomeRecordT(
 				tlv.NewRecordT[tlv.TlvType7](partialSig),
 			)
@@ -1413,12 +1418,18 @@ func createClosingSigMessage(env *Environment, wireSig lnwire.Sig,
 			),
 		)
 	} else {
-		// Non-taproot: use regular signatures.
-		if noClosee {
+		// Non-taproot: use regular signatures. We answer in the field
+		// that matches the version of the transaction we signed.
+		switch {
+		case noClosee:
 			closingSigs.CloserNoClosee = newSigTlv[tlv.TlvType1](
 				wireSig,
 			)
-		} else {
+		case noCloser:
+			closingSigs.NoCloserClosee = newSigTlv[tlv.TlvType2](
+				wireSig,
+			)
+		default:
 			closingSigs.CloserAndClosee = newSigTlv[tlv.TlvType3](
 				wireSig,
 			)
@@ -2024,6 +2035,18 @@ func (l *RemoteCloseStart) ProcessEvent(event ProtocolEvent, env *Environment,
 			lnwallet.WithCustomPayer(lntypes.Remote),
 		}
 
+		// If we keep our output and they didn't sign the version with
+		// both outputs, then the signature we selected above is the
+		// one for the transaction without the closer's output, so
+		// that's the version we need to build and sign as well.
+		noCloser := !noClosee &&
+			parseSigFields(msg.SigMsg).CloserAndClosee.IsNone()
+		if noCloser {
+			chanOpts = append(
+				chanOpts, lnwallet.WithOmittedRemoteCloseOutput(),
+			)
+		}
+
 		var remoteSig input.Signature
 
 		// For taproot channels, add MusigSession options if available.
@@ -2066,9 +2089,6 @@ func (l *RemoteCloseStart) ProcessEvent(event ProtocolEvent, env *Environment,
 		// Now that we have the remote sig, we'll sign the version they
 		// signed, then attempt to complete the cooperative close
 		// process.
-		//
-		// TODO(roasbeef): need to be able to omit an output when
-		// signing based on the above, as closing opt
 		wireSig, localSig, err := createLocalCloseeSignature(
 			env, msg.SigMsg.FeeSatoshis, l.LocalDeliveryScript,
 			l.RemoteDeliveryScript, chanOpts,
@@ -2106,7 +2126,7 @@ func (l *RemoteCloseStart) ProcessEvent(event ProtocolEvent, env *Environment,
 		closingSigMsg, err := createClosingSigMessage(
 			env, wireSig, localSig, l.LocalDeliveryScript,
 			l.RemoteDeliveryScript, msg.SigMsg.FeeSatoshis,
-			msg.SigMsg.LockTime, noClosee,
+			msg.SigMsg.LockTime, noClosee, noCloser,
 		)
 		if err != nil {
 			return nil, err
